@@ -13,7 +13,10 @@ use std::cmp::Ordering;
 use std::collections::HashMap;
 use std::sync::{Arc, Weak};
 use std::time::Duration;
+#[cfg(not(deltio_verif))]
 use tokio::sync::{mpsc, oneshot};
+#[cfg(deltio_verif)]
+use {crate::verif::mpsc, tokio::sync::oneshot};
 
 /// Represents a subscription.
 pub struct Subscription {
